@@ -8,6 +8,7 @@ import Gpa.Model.Health
 import Gpa.Model.RbacWire
 import Gpa.Model.PipelineWire
 import Gpa.Model.Attribution
+import Gpa.Model.Truncate
 
 open Gpa
 
@@ -77,6 +78,22 @@ def stepLine (st : DState) (line : String) : DState × String :=
   | ["attr", "ports"] =>
       let ps := Text.sortBy (fun a b => decide (a < b)) (st.attr.audit.map (·.1))
       (st, if ps.isEmpty then "-" else ",".intercalate (ps.map toString))
+  | ["trunc", "event", m] =>
+      match Hex.decodeString m with
+      | some t => (st, Hex.encode (Text.utf8 (Truncate.eventMessage t.toList)))
+      | none => (st, "bad-op")
+  | ["trunc", "status", m] =>
+      match Hex.decodeString m with
+      | some t => (st, Hex.encode (Text.utf8 (Truncate.statusMessage t.toList)))
+      | none => (st, "bad-op")
+  | ["trunc", "take", n, m] =>
+      match n.toNat?, Hex.decodeString m with
+      | some n, some t => (st, Hex.encode (Text.utf8 (Truncate.truncateTo n t.toList)))
+      | _, _ => (st, "bad-op")
+  | ["trunc", "utf16", b] =>
+      match Hex.decode b with
+      | some bs => (st, " ".intercalate ((Truncate.utf16Units bs).map toString))
+      | none => (st, "bad-op")
   | "authz" :: toks =>
       match Tok.run (do let ip ← Tok.str; let port ← Tok.nat; let e ← Pipeline.pBool
                         let rules ← Tok.opt Rbac.pItem; let u ← Rbac.pUri; let c ← Rbac.pClaims
@@ -92,8 +109,8 @@ def stepLine (st : DState) (line : String) : DState × String :=
                         let b ← Tok.bytes; pure (m, u, hs, b)) toks with
       | some (m, u, hs, b) =>
           let hm := Headers.ofWire hs
-          let a := match Canon.sigInput m b hm u with | some x => Hex.encode x | none => "panic"
-          let bb := match Canon.sigInputBuilder m (some b) hm u with | some x => Hex.encode x | none => "panic"
+          let a := Hex.encode (Canon.sigInput m b hm u)
+          let bb := Hex.encode (Canon.sigInputBuilder m (some b) hm u)
           (st, s!"{a} {bb} {if Canon.shouldSkipSig m u then 1 else 0}")
       | none => (st, "bad-op")
   | _ => (st, "bad-op")
